@@ -66,7 +66,11 @@ type c16Interval struct {
 	StartedS float64 `json:"regulationStartS"`
 }
 
-func runC16(t *testing.T, sc c16Scenario) verdict {
+func runC16(t *testing.T, sc c16Scenario) verdict { return runC16With(t, sc, false) }
+
+// runC16With runs the schedule either in a synctest bubble (virtual time, channel based init lock from
+// the overlay) or - realTime - on the wall clock against the tree's own lock implementation.
+func runC16With(t *testing.T, sc c16Scenario, realTime bool) verdict {
 	sim.BaseConfig()
 	configuration.CurrentConfig.RunFanInitializationInParallel = sc.Parallel
 	pers := sim.NewMemPersistence()
@@ -85,7 +89,7 @@ func runC16(t *testing.T, sc c16Scenario) verdict {
 	var vs []sim.Violation
 	ivs := make([]c16Interval, len(rigs))
 	hung := false
-	synctest.Test(t, func(st *testing.T) {
+	body := func() {
 		controller.VerifResetInitMutex()
 		t0 := time.Now()
 		ctx, cancel := context.WithCancel(context.Background())
@@ -103,7 +107,11 @@ func runC16(t *testing.T, sc c16Scenario) verdict {
 				done <- ctl.Run(ctx)
 			}()
 		}
-		deadline := time.After(6 * time.Hour)
+		limit := 6 * time.Hour
+		if realTime {
+			limit = 5 * time.Minute
+		}
+		deadline := time.After(limit)
 		for _, r := range rigs {
 			select {
 			case <-r.Curve.FirstEval:
@@ -114,7 +122,9 @@ func runC16(t *testing.T, sc c16Scenario) verdict {
 				break
 			}
 		}
-		synctest.Wait()
+		if !realTime {
+			synctest.Wait()
+		}
 		cancel()
 		for range rigs {
 			<-done
@@ -134,9 +144,14 @@ func runC16(t *testing.T, sc c16Scenario) verdict {
 			}
 			ivs[i] = iv
 		}
-	})
+	}
+	if realTime {
+		body()
+	} else {
+		synctest.Test(t, func(st *testing.T) { body() })
+	}
 	if hung {
-		vs = append(vs, sim.Violation{Key: "analysis-never-finished", Msg: "not every fan reached regulation within 6 virtual hours"})
+		vs = append(vs, sim.Violation{Key: "analysis-never-finished", Msg: "not every fan reached regulation within 6 virtual hours (5 real minutes in the real-time tier)"})
 	}
 	minLen := 1e18
 	for _, iv := range ivs {
@@ -188,3 +203,33 @@ func runC16(t *testing.T, sc c16Scenario) verdict {
 }
 
 func TestC16(t *testing.T) { runProperty(t, "C16", genC16, runC16) }
+
+// TestC16RT is the real-time cross-check (thorough tier): the same oracle on the wall clock, in a test
+// binary built WITHOUT the channel-mutex overlay, i.e. against whatever lock the tree itself uses.
+// Slowness can only lengthen an interval, never make disjoint intervals overlap: every analysis write
+// happens while the lock is held, and a monotonic clock orders unlock before the next lock.
+func genC16RT(t *rapid.T) c16Scenario {
+	sc := c16Scenario{Parallel: false}
+	n := rapid.IntRange(2, 3).Draw(t, "nFans")
+	for i := 0; i < n; i++ {
+		f := sim.FanSpec{Kind: rapid.SampledFrom([]string{"hwmon", "hwmon", "hwmon", "file"}).Draw(t, "kind"), OrigMode: 2, OrigPwm: rapid.IntRange(0, 255).Draw(t, "origPwm"), NoStored: true}
+		if f.Kind == "hwmon" {
+			keys := rapid.SliceOfNDistinct(rapid.SampledFrom([]int{0, 40, 80, 120, 160, 200, 255}), 2, 3, rapid.ID[int]).Draw(t, "keys")
+			f.PwmMap = map[int]int{}
+			for _, k := range keys {
+				f.PwmMap[k] = k
+			}
+		}
+		f.Slew = rapid.SampledFrom([]int{0, 0, 100, 300}).Draw(t, "slew")
+		sc.Fans = append(sc.Fans, c16Fan{Spec: f, DelayMs: rapid.SampledFrom([]int{0, 0, 1, 50, 500, 1000, 2400, 3000}).Draw(t, "delayMs")})
+	}
+	return sc
+}
+
+func TestC16RT(t *testing.T) {
+	runProperty(t, "C16", genC16RT, func(t *testing.T, sc c16Scenario) verdict {
+		v := runC16With(t, sc, true)
+		v.labels = append(v.labels, "real-time")
+		return v
+	})
+}
